@@ -219,6 +219,10 @@ func (f *Face) outlineGlyphData(gid gID) (GlyphOutline, bool) {
 	return GlyphOutline{}, false
 }
 
+// maxSVGInflateRatio is the maximum accepted ratio between the size of an SVG document
+// and its compressed size
+const maxSVGInflateRatio = 32
+
 func (s svg) glyphData(gid gID) (GlyphSVG, bool) {
 	data, ok := s.rawGlyphData(gid)
 	if !ok {
@@ -227,8 +231,14 @@ func (s svg) glyphData(gid gID) (GlyphSVG, bool) {
 
 	// un-compress if needed
 	if r, err := gzip.NewReader(bytes.NewReader(data)); err == nil {
+		// bound the size of the document by the size of its compressed form:
+		// an SVG document is far from the maximum ratio of the deflate format (about 1000)
+		maxSize := int64(len(data))*maxSVGInflateRatio + 1<<16
 		var buf bytes.Buffer
-		if _, err := io.Copy(&buf, r); err == nil {
+		if n, err := io.Copy(&buf, io.LimitReader(r, maxSize+1)); err == nil {
+			if n > maxSize {
+				return GlyphSVG{}, false
+			}
 			data = buf.Bytes()
 		}
 	}
